@@ -153,7 +153,7 @@ def majority_vote_byte_scan(relfilepath, fileslist, outpath, blocksize=65535, de
     if len(fileshandles) < 3:
         # If there's at least one input file, then copy it verbatim to the output folder
         if fileshandles:
-            create_dir_if_not_exist(os.path.dirname(outpathfull))
+            if not hasattr(outpath, 'write'): create_dir_if_not_exist(os.path.dirname(outpathfull)) # no folder to create when the output is a file handle (outpathfull is not even defined then)
             buf = 1
             while (buf):
                 buf = fileshandles[0].read()
